@@ -191,14 +191,14 @@ pub fn c18_metrics_isize_n2() {
     dm_isize_2();
 }
 
-// @verif prop=C18 tier=thorough fl=f2 role=metrics/usize t=3600 mem=24
+// @verif prop=C18 tier=exp fl=f2 role=metrics/usize t=3600 mem=24
 #[cfg_attr(kani, kani::proof)]
 #[cfg_attr(kani, kani::unwind(18))]
 pub fn c18_metrics_usize_n4() {
     dm_usize_4();
 }
 
-// @verif prop=C18 tier=thorough fl=f2 role=metrics/isize t=3600 mem=24
+// @verif prop=C18 tier=exp fl=f2 role=metrics/isize t=3600 mem=24
 #[cfg_attr(kani, kani::proof)]
 #[cfg_attr(kani, kani::unwind(18))]
 pub fn c18_metrics_isize_n4() {
